@@ -28,15 +28,15 @@ RMS = ['FORK', 'SLURM', 'PBSPRO_VNODE', 'PBSPRO_FILE', 'LSF', 'COBALT_FILE', 'CO
 
 DEVS = ['DevKeepDuplicates', 'DevKeepPseudo', 'DevSmtTwice', 'DevNoCut', 'DevAgentsStay',
         'DevBackupAfterCut', 'DevCopyDropsService', 'DevRegistryKeyCase', 'DevLsfTrustConfig',
-        'DevGpusAfterList']
+        'DevGpusAfterList', 'DevTimeoutIsOk', 'DevSplitByBackup']
 
 # the invariants of C18 (+ the model's own consistency), and the one that is not (D20)
 INVARIANTS = ['TypeOK', 'InvParsedOnePerNode', 'InvOnePerNode', 'InvSized', 'InvDisjoint',
               'InvReserved', 'InvNonEmpty', 'InvNotLonger', 'InvSameEverywhere', 'InvRefusal',
-              'InvExpected', 'InvBackupKept', 'InvInfoAgrees']
+              'InvExpected', 'InvBackupKept', 'InvInfoAgrees', 'InvReachable', 'InvNotShorter']
 
 SMALL = dict(maxhosts=3, orders=['asc', 'rot'], cores=[2], smt=[1, 2], lsfcores=[2, 3], lsfsmt=[1, 4],
-             pslots=[1, 3],
+             pslots=[1, 3], probebackups=[0, 1, 2, 3],
              gpus=[(0, ()), (2, ()), (2, (1,))], bcs=[(), (0,)], backups=[0, 1], agents=[0, 1, 2])
 # the full cross product of the thorough tier leaves out 'GPUs present, none blocked' and the host
 # orders other than ascending (those are crossed with every allocation shape in the parse sweep; that
@@ -44,8 +44,9 @@ SMALL = dict(maxhosts=3, orders=['asc', 'rot'], cores=[2], smt=[1, 2], lsfcores=
 FULL  = dict(SMALL, gpus=[(0, ()), (2, (1,))], orders=['asc'])
 # deviation sensitivity runs
 TINY  = dict(SMALL, maxhosts=2, orders=['asc'])
-LARGE = dict(maxhosts=4, orders=['asc', 'desc', 'rot'], cores=[2, 3], smt=[1, 2], lsfcores=[2, 3],
-             lsfsmt=[1, 4], pslots=[1, 3],
+PROBE4 = dict(SMALL, maxhosts=4)
+LARGE = dict(maxhosts=4, orders=['asc', 'desc'], cores=[2, 3], smt=[1, 2], lsfcores=[2, 3],
+             lsfsmt=[1, 4], pslots=[1, 3], probebackups=[0, 1, 2, 3],
              gpus=[(0, ()), (2, (1,))], bcs=[(), (0,)], backups=[0, 1], agents=[0, 1, 2])
 
 D_PBSSMT = 'PBSPro node file fallback (qstat unavailable) on a platform with SMT > 1'
@@ -59,15 +60,16 @@ def _set(xs, quote=False):
 def mc_files(scope, sweep, devs=(), print_cases=False, invariants=None):
     mod = ('---- MODULE MC ----\nEXTENDS RMNodes\n'
            'MCRM == %s\nMCOrders == %s\nMCCores == %s\nMCSmt == %s\nMCLsfCores == %s\nMCLsfSmt == %s\n'
-           'MCPSlots == %s\nMCGpu == %s\nMCBc == %s\n'
+           'MCPSlots == %s\nMCPB == %s\nMCGpu == %s\nMCBc == %s\n'
            'MCBk == %s\nMCAg == %s\n====\n'
            % (_set(RMS, True), _set(scope['orders'], True), _set(scope['cores']), _set(scope['smt']),
               _set(scope['lsfcores']), _set(scope['lsfsmt']), _set(scope['pslots']),
+              _set(scope['probebackups']),
               _set('<<%d, %s>>' % (g, _set(b)) for g, b in scope['gpus']),
               _set(_set(b) for b in scope['bcs']), _set(scope['backups']), _set(scope['agents'])))
     cfg = ('CONSTANTS\n RMKinds <- MCRM\n MaxHosts = %d\n Orders <- MCOrders\n CoreChoices <- MCCores\n'
            ' SmtChoices <- MCSmt\n LsfCoreChoices <- MCLsfCores\n LsfSmtChoices <- MCLsfSmt\n'
-           ' PSlotChoices <- MCPSlots\n GpuCfgs <- MCGpu\n BlockedCs <- MCBc\n Backups <- MCBk\n'
+           ' PSlotChoices <- MCPSlots\n ProbeBackups <- MCPB\n GpuCfgs <- MCGpu\n BlockedCs <- MCBc\n Backups <- MCBk\n'
            ' AgentCounts <- MCAg\n Sweep = "%s"\n PrintCases = %s\n'
            % (scope['maxhosts'], sweep, 'TRUE' if print_cases else 'FALSE'))
     for d in DEVS:
@@ -97,6 +99,12 @@ def classify(c, clause):
         cls += ' with %d slots' % c['pslots']
     if c['uneven']:
         cls += ' uneven'
+    if c['refused'] or c['hangs']:
+        return 'backup nodes: %s%s' % ('a probe never answers' if c['hangs'] else 'a probe is refused',
+                                       '' if c['backup'] < 2 else ', several backup nodes')
+    if c['backup'] == 0 and clause in ('C18.Initialises', 'C18.OnePerNode', 'C18.NotShorter',
+                                       'C17.AgentNodesAsTold') and c['requested'] < len(c['hosts']):
+        return 'allocation larger than the pilot, no backup nodes'
     if c['gpusrc'] != 'config':
         cls += ' gpus from $%s' % R.GPU_ENV[c['gpusrc']]
     return cls
@@ -104,7 +112,7 @@ def classify(c, clause):
 
 def validate(chk, cases, traces, note):
     '''monitor verdict for every trace; report C18 clauses, note the rest'''
-    res, st = tracecheck.validate('RMNodes', 'RMNodesTrace', '', traces, max_batch=6000,
+    res, st = tracecheck.validate('RMNodes', 'RMNodesTrace', '', traces, max_batch=12000,
                                   workers=4, timeout=1500)
     chk.states      += st['states']
     chk.transitions += st['transitions']
@@ -116,6 +124,7 @@ def validate(chk, cases, traces, note):
         chk.nontrivial.add((c['rm'], c['shape'], c['pseudo'], c['pslots'], c['uneven'], c['gpusrc'],
                             c['style'], c['known'], c['smt'] > 1,
                             bool(c['bc']), bool(c['bg']), c['agents'], c['service'], c['backup'],
+                            len(c['refused']), len(c['hangs']),
                             c['requested'] < len(c['hosts']), kinds[-1]))
         mine = [e for e in errs if e.split('.')[0] == chk.pid]
         for e in errs:
@@ -156,7 +165,13 @@ def run(chk, tier, seed):
 
     # ---- 1. design model, exhaustive; the explored inputs drive the rig ---------
     cases = []
-    sweeps = [(SMALL, 'parse'), (SMALL, 'filter')] if quick else [(FULL, 'full'), (SMALL, 'parse')]
+    only17 = chk.pid == 'C17'       # C17.AgentNodesAsTold: the probe / backup sweep is enough
+    if only17:
+        sweeps = [(SMALL if quick else PROBE4, 'probe')]
+    elif quick:
+        sweeps = [(SMALL, 'quick')]           # parse + filter + probe sweeps in one TLC run
+    else:
+        sweeps = [(FULL, 'full'), (SMALL, 'parse'), (PROBE4, 'probe')]
     for scope, sweep in sweeps:
         res = tlc.run('RMNodes', 'MC', 'MC.cfg', workers=w, timeout=1500,
                       extra_files=mc_files(scope, sweep, print_cases=True))
@@ -170,7 +185,7 @@ def run(chk, tier, seed):
         cases += got
     chk.exhaustive = True
 
-    if not quick:
+    if not quick and not only17:
         for sweep in ('full', 'parse'):
             res = tlc.run('RMNodes', 'MC', 'MC.cfg', workers=w, timeout=1800,
                           extra_files=mc_files(LARGE, sweep))
@@ -189,10 +204,13 @@ def run(chk, tier, seed):
                   ('DevCopyDropsService', 'filter', 'InvSameEverywhere'),
                   ('DevRegistryKeyCase', 'filter', 'InvSameEverywhere'),
                   ('DevLsfTrustConfig', 'parse', 'InvParsedOnePerNode'),
-                  ('DevGpusAfterList', 'parse', 'InvInfoAgrees')]
+                  ('DevGpusAfterList', 'parse', 'InvInfoAgrees'),
+                  ('DevTimeoutIsOk', 'probe', 'InvReachable'),
+                  ('DevSplitByBackup', 'probe', 'InvNotShorter')]
         for dev, sweep, inv in expect:
             res = tlc.run('RMNodes', 'MC', 'MC.cfg', workers=w, timeout=900,
-                          extra_files=mc_files(TINY, sweep, devs=[dev], invariants=[inv]))
+                          extra_files=mc_files(SMALL if sweep == 'probe' else TINY, sweep, devs=[dev],
+                                               invariants=[inv]))
             chk.add_tlc(res, 'deviation:' + dev)
             if res.ok or res.violated != inv:
                 raise Machinery('deviation %s not detected by the model (got %s)' % (dev, res.violated))
